@@ -3,6 +3,7 @@
 enum: every config of a stated small grammar is rendered to text, parsed by the real SSHConfig and
 looked up for 4 hostnames; the result is compared key for key with vmc/refs/sshconfig.py.
 """
+import io
 import itertools
 import os
 import socket
@@ -19,7 +20,11 @@ META = {
                  "compared with a reference implementation of first-obtained-value semantics",
     "text": "Every config of three stated families (S1: optional global setting + <=2 (quick) / <=3 (thorough) "
             "Host/Match blocks over 39-59 headers x 5-7 one-line bodies + the empty (option-less) body; S2: <=2 blocks over 2-7 headers x all "
-            "ordered 1-2 settings out of 15 incl. %-tokens; S3: key case / '=' / quoting variants) x 4 hostnames: "
+            "ordered 1-2 settings out of 15 incl. %-tokens; S3: key case / '=' / quoting variants; S5 'incremental parse': ONE SSHConfig object is fed 2-3 files by "
+            "successive parse() calls (each file = optional global section + 0-1 block, quick; 3 files of one block) "
+            "x {all 4 hostnames looked up after every parse(), lookups only after the last one}, and finally every "
+            "hostname is looked up once more after the caller modified the result objects it got before - every "
+            "lookup must equal the reference applied to everything parsed so far) x 4 hostnames: "
             "lookup() equals the reference key for key, get_hostnames() contains every Host pattern.",
     "note": "Match exec, canonicalisation and Include are outside the space; Match criteria are evaluated with "
             "paramiko's two-pass (always-final) flavour; the %C digest is only checked for shape",
@@ -332,6 +337,150 @@ def _raw_hostname(rb, host):
     return opts.get("hostname")
 
 
+# ---- S5: one SSHConfig object fed incrementally ------------------------------------------------------
+BETWEEN = ("lookup-after-every-parse", "lookup-after-last-parse-only")
+S5_BODIES = [(("user", "u1"),), (("hostname", "%h.x"),), (("identityfile", "k2"),), EMPTY_BODY]
+S5_GLOB_LATER = [(), (("user", "u2"),), (("identityfile", "~/k1"),)]
+S5_HDR3 = [H("*"), H("a*"), H("!a*", "*"), H("ab"), MATCHES[0], MATCHES[1], MATCHES[7]]
+
+
+def ref_files(files):
+    """Reference structure of several files parsed into one object: every parse() call starts in the global
+    scope again (implicit Host * block), then the explicit blocks of that file."""
+    rb = []
+    for glob, blocks in files:
+        rb.append(("host", ["*"], list(glob)))
+        for h, body in blocks:
+            rb.append((h[0], list(h[1]), list(body)))
+    return rb
+
+
+def _judge_lookup(cfg, rb, host):
+    """-> (result object or None, reference, info, [(key, detail)])"""
+    exp, info = R.lookup(rb, host, ENV, passes=2, raw_host=True)
+    try:
+        res = cfg.lookup(host)
+        got = dict(res)
+    except Exception as e:
+        return None, exp, info, [("lookup-raises:%s" % type(e).__name__, {"error": repr(e)})]
+    problems = []
+    if set(exp) != set(got) or any(not R.matches_expected(exp[k], got[k]) for k in exp):
+        problems = classify(rb, host, exp, got, _raw_hostname(rb, host))
+        problems = [(k, dict(d, lookup=got)) for k, d in problems]
+    return res, exp, info, problems
+
+
+def check_incremental(files, between, acc, want_detail=False):
+    """files: ((glob, blocks), ...) parsed one after the other into ONE SSHConfig object."""
+    texts = [render(g, b) for g, b in files]
+    rep = {"family": "S5", "files": files, "texts": texts, "between": between}
+    acc.ev()
+    acc.count("incremental_cases")
+    cfg = SSHConfig()
+    held = {}
+    looked_up = set()
+    rb = exp_last = None
+    for i, text in enumerate(texts):
+        last = i == len(texts) - 1
+        try:
+            cfg.parse(io.StringIO(text))
+        except Exception as e:
+            acc.violation("incremental:parse-raises:%s" % type(e).__name__, {"texts": texts, "error": repr(e)}, rep)
+            return
+        if not (last or between == BETWEEN[0]):
+            continue
+        rb = ref_files(files[:i + 1])
+        if last:
+            exp_last = {}
+            try:
+                missing = R.host_patterns(rb[1:]) - set(cfg.get_hostnames())
+                if missing:
+                    acc.violation("incremental:get_hostnames-misses-Host-pattern",
+                                  {"texts": texts, "missing": sorted(missing)}, rep)
+            except Exception as e:
+                acc.violation("incremental:get_hostnames-raises:%s" % type(e).__name__,
+                              {"texts": texts, "error": repr(e)}, rep)
+        for host in HOSTNAMES:
+            acc.ev()
+            res, exp, info, problems = _judge_lookup(cfg, rb, host)
+            phase = "first-parse" if i == 0 else ("after-later-parse:host-looked-up-before" if host in looked_up
+                                                  else "after-later-parse:host-not-looked-up-before")
+            for key, det in problems:
+                acc.violation("incremental:%s:%s" % (phase, key),
+                              dict(det, texts=texts, parsed_files=i + 1, host=host, between=between, expected=exp),
+                              dict(rep, host=host))
+            if want_detail:
+                print("after parse #%d: lookup(%r) -> %r\n   reference   %r" % (i + 1, host, res, exp))
+                for key, det in problems:
+                    print("   MISMATCH", phase, key)
+            looked_up.add(host)
+            held[host] = res
+            if last:
+                exp_last[host] = exp
+                # non-trivial: a file parsed AFTER the first one changed the answer for this hostname
+                if i > 0:
+                    before, _ = R.lookup(ref_files(files[:i]), host, ENV, passes=2, raw_host=True)
+                    if before != exp:
+                        acc.count("nontrivial_cases")
+                        acc.count("incremental_lookups_changed_by_later_file")
+                        acc.nt(("S5", host, between, tuple(t.splitlines()[0] if t else "" for t in texts),
+                                tuple(sorted(set(exp) - set(before)))))
+                        if between == BETWEEN[0] and not problems and "identityfile" in exp and \
+                                not any(x.get("family") == "S5" for x in acc.samples):
+                            acc.sample({"family": "S5", "files_parsed_one_after_the_other": texts, "hostname": host,
+                                        "lookup_after_first_file(s)": before, "lookup_after_last_file": dict(res)})
+    # the caller owns what lookup() returned: modifying it must not change later answers
+    for host in HOSTNAMES:
+        res = held.get(host)
+        if res is None:
+            continue
+        acc.ev()
+        res["user"] = "MODIFIED-BY-CALLER"
+        res["hostname"] = "modified.by.caller"
+        if isinstance(res.get("identityfile"), list):
+            res["identityfile"].append("MODIFIED-BY-CALLER")
+            del res["identityfile"][0]
+        res2, exp, info, problems = _judge_lookup(cfg, rb, host)
+        for key, det in problems:
+            acc.violation("incremental:repeated-lookup-after-caller-modified-earlier-result:%s" % key,
+                          dict(det, texts=texts, host=host, expected=exp), dict(rep, host=host))
+        if want_detail:
+            print("again after modifying the earlier result: lookup(%r) -> %r" % (host, res2))
+            for key, det in problems:
+                print("   MISMATCH repeated-lookup", key)
+
+
+def s5_files(tier):
+    """-> list of work items ("S5", [files, ...])"""
+    hdr = HOST_X3 + MATCHES
+    red = blocks_of(hdr, S5_BODIES)
+    first_files = [(g, bl) for g in G1 for bl in [()] + [(b,) for b in red]]
+    later_files = [(g, bl) for g in S5_GLOB_LATER for bl in [()] + [(b,) for b in red] if g or bl]
+    items = []
+    for f1 in first_files:
+        items.append(("S5", f1, later_files))
+    red3 = blocks_of(S5_HDR3, S5_BODIES)
+    if tier != "quick":
+        red3 = blocks_of(S5_HDR3 + [MATCHES[5], H("?b", "!b.c")], S5_BODIES)
+    for b1 in red3:
+        for b2 in red3:
+            items.append(("S5x3", b1, b2, red3))
+    return items
+
+
+def run_s5(item, acc):
+    if item[0] == "S5":
+        _, f1, later = item
+        for f2 in later:
+            for between in BETWEEN:
+                check_incremental((f1, f2), between, acc)
+    else:
+        _, b1, b2, red3 = item
+        for b3 in red3:
+            for between in BETWEEN:
+                check_incremental((((), (b1,)), ((), (b2,)), ((), (b3,))), between, acc)
+
+
 # ---- work items --------------------------------------------------------------------------------------
 def blocks_of(headers, bodies):
     return [(h, b) for h in headers for b in bodies]
@@ -390,6 +539,7 @@ def build_items(tier):
         items.append(("S2", first, blk2))
     for part in enum.chunks(B2, 8):
         items.append(("S3", part))
+    items.extend(s5_files(tier))
     return items
 
 
@@ -398,6 +548,8 @@ def run_any(item, acc):
         _, glob, first, second, red = item
         for third in red:
             check_config(glob, (first, second, third), acc)
+    elif item[0] in ("S5", "S5x3"):
+        run_s5(item, acc)
     else:
         run_item(item, acc)
 
@@ -411,7 +563,10 @@ def main(tier):
         "cases in which the reference had to decide something: a later applying block offered another value "
         "(1), IdentityFile accumulated from >=2 blocks (2), a %-token was expanded (4), a negated pattern "
         "vetoed a block whose positive pattern matched (8), a Match block applied only in the final pass (16); "
-        "counters.nontrivial_cases is the raw number of such cases",
+        "counters.nontrivial_cases is the raw number of such cases; family S5 (incremental parse): case = (sequence "
+        "of 2-3 files parsed into ONE SSHConfig object, lookups after every parse / after the last only), every "
+        "lookup judged against the reference on everything parsed so far, non-trivial = distinct (hostname, lookup "
+        "mode, first lines of the files, keys gained) where a file parsed after the first one changed the answer",
         ["getpass.getuser / socket.gethostname / getfqdn / os.path.expanduser pinned (lu, lh, /home/lu)",
          "Match criteria follow paramiko's always-two-pass evaluation (OpenSSH's behaviour when a final pass "
          "happens) and see the un-expanded HostName; counters.info_* counts cases where single-pass OpenSSH "
@@ -436,6 +591,14 @@ def main(tier):
         "S2": "every sequence of <=2 blocks, header in %r x body = every ordered 1-2 settings out of %d"
               % ([render_header(h).strip() for h in sp["hs"]], len(SETTINGS)),
         "S3": "5 key-case/separator/quoting/CRLF styles x %d bodies, as Host * body and as global section" % len(B2),
+        "S5": "incremental parse, ONE SSHConfig object: (a) 2 files, first = global section in %d x (no block | 1 block of %d: "
+              "header in %d x body in %d), second = global section in %d x (no block | 1 block of the same %d), not "
+              "empty; (b) 3 files of exactly one block, header in %d x body in %d; x %r; every lookup (4 hostnames after "
+              "each judged parse + 4 repeated lookups after the caller modified the earlier result objects) against "
+              "the reference on everything parsed so far" % (
+                  len(G1), len(HOST_X3 + MATCHES) * len(S5_BODIES), len(HOST_X3 + MATCHES), len(S5_BODIES),
+                  len(S5_GLOB_LATER), len(HOST_X3 + MATCHES) * len(S5_BODIES),
+                  len(S5_HDR3) + (0 if tier == "quick" else 2), len(S5_BODIES), list(BETWEEN)),
         "work_items": len(items),
     }
     return ck.finish()
@@ -446,9 +609,16 @@ def replay(rec):
 
     def tup(x):
         return tuple(tup(i) for i in x) if isinstance(x, list) else x
+    acc = core.Acc()
+    if r.get("family") == "S5":
+        for i, t in enumerate(r["texts"]):
+            print("--- file %d\n%s" % (i + 1, t))
+        check_incremental(tup(r["files"]), r["between"], acc, want_detail=True)
+        for v in acc.violations:
+            print("violation:", v["key"])
+        return 1 if any(v["key"] == rec["key"] for v in acc.violations) else 0
     glob, blocks = tup(r["glob"]), tup(r["blocks"])
     print(r["text"])
-    acc = core.Acc()
     global HOSTNAMES
     if r.get("host"):
         HOSTNAMES = [r["host"]]
